@@ -211,7 +211,7 @@ type toolCase struct {
 }
 
 func genTool(t *rapid.T) *toolCase {
-	return &toolCase{Tool: rapid.IntRange(0, 4).Draw(t, "tool"), N: rapid.IntRange(2, 10).Draw(t, "n"), Addrs: rapid.SliceOfN(rapid.Uint64Range(0, 0xfff), 10, 10).Draw(t, "addrs"),
+	return &toolCase{Tool: rapid.IntRange(0, 5).Draw(t, "tool"), N: rapid.IntRange(2, 10).Draw(t, "n"), Addrs: rapid.SliceOfN(rapid.Uint64Range(0, 0xfff), 10, 10).Draw(t, "addrs"),
 		Reconf: rapid.IntRange(0, 3).Draw(t, "reconf"), OpenToo: rapid.Bool().Draw(t, "opentoo")}
 }
 
@@ -243,6 +243,8 @@ func setupTools() {
 	write(toolDirs[0], "addr2line", a2l)
 	write(toolDirs[1], "llvm-symbolizer", llvm)
 	write(toolDirs[2], "llvm-symbolizer", dying)
+	// an addr2line that prints a warning line before the answer for some addresses (a reply pprof cannot use)
+	write(toolDirs[5], "addr2line", "#!/bin/sh\nwhile read a; do case \"$a\" in *7|*3) echo 'addr2line: DWARF error: mangled line number section';; esac; echo \"0x$a\"; echo \"fn_$a\"; echo \"file.c:1\"; done\n")
 	// a minimal PIE: ELF header + one executable PT_LOAD
 	b := make([]byte, 64+56)
 	copy(b, []byte{0x7f, 'E', 'L', 'F', 2, 1, 1, 0})
@@ -274,7 +276,7 @@ func checkTool(c *toolCase, o *vk.Obs) []string {
 	bu := &binutils.Binutils{}
 	cfg := "nm:" + toolDirs[c.Tool] + ",addr2line:" + toolDirs[c.Tool] + ",llvm-symbolizer:" + toolDirs[c.Tool] + ",objdump:/nonexistent"
 	bu.SetTools(cfg)
-	if c.Tool >= 3 {
+	if c.Tool == 3 || c.Tool == 4 {
 		bu.SetFastSymbolization(true)
 	}
 	const bias = 0x555555554000
@@ -282,7 +284,7 @@ func checkTool(c *toolCase, o *vk.Obs) []string {
 	if err != nil {
 		return []string{"Open: " + err.Error()}
 	}
-	o.Label([]string{"addr2line", "llvm-symbolizer", "llvm-symbolizer-dies", "nm", "nm-fails"}[c.Tool])
+	o.Label([]string{"addr2line", "llvm-symbolizer", "llvm-symbolizer-dies", "nm", "nm-fails", "addr2line-garbled-replies"}[c.Tool])
 	o.NonTrivial = true
 	var wg sync.WaitGroup
 	var mu sync.Mutex
@@ -300,6 +302,9 @@ func checkTool(c *toolCase, o *vk.Obs) []string {
 				switch {
 				case err != nil:
 					failed++
+				case c.Tool == 5:
+					// after a reply it cannot use the exchange is out of step: only "every call returns" is asked
+					answered++
 				case c.Tool == 3:
 					if len(frames) != 1 || frames[0].Func != "sym" {
 						e.Addf("nm lookup of %#x returned %+v", a, frames)
@@ -330,7 +335,7 @@ func checkTool(c *toolCase, o *vk.Obs) []string {
 			if i%2 == 0 {
 				bu.SetTools(cfg)
 			} else {
-				bu.SetFastSymbolization(c.Tool >= 3)
+				bu.SetFastSymbolization(c.Tool == 3 || c.Tool == 4)
 			}
 			if c.OpenToo {
 				if f, err := bu.Open(elfPath, bias, bias+0x1000, 0, ""); err == nil {
@@ -352,7 +357,7 @@ func checkTool(c *toolCase, o *vk.Obs) []string {
 	if c.Tool == 4 && answered > 0 {
 		e.Addf("%d lookups were answered although nm fails", answered)
 	}
-	if c.Tool != 2 && c.Tool != 4 && failed > 0 {
+	if c.Tool != 2 && c.Tool != 4 && c.Tool != 5 && failed > 0 {
 		e.Addf("%d of %d lookups failed although the tool answers every request", failed, answered+failed)
 	}
 	return e
@@ -360,7 +365,7 @@ func checkTool(c *toolCase, o *vk.Obs) []string {
 
 func TestPropTools(t *testing.T) {
 	vk.Main(t, vk.Spec[toolCase]{ID: "C20", Facet: "tools", Quick: 250, Thorough: 1500, Gen: genTool, Check: checkTool, Journal: true, CaseTimeout: 90 * time.Second,
-		Rule: "2..10 goroutines x 3 SourceLine calls on ONE object file opened through binutils, backed by fake addr2line / llvm-symbolizer / nm scripts that echo the queried address (one variant of the tool dies after three answers, one nm fails outright), while other goroutines call SetTools / SetFastSymbolization / Open on the same Binutils; under the race detector; oracle: no data race, no deadlock (30 s), every answer carries the address that was asked; every case is non-trivial"})
+		Rule: "2..10 goroutines x 3 SourceLine calls on ONE object file opened through binutils, backed by fake addr2line / llvm-symbolizer / nm scripts that echo the queried address (one variant of the tool dies after three answers, one nm fails outright, one addr2line puts a warning line in front of some answers), while other goroutines call SetTools / SetFastSymbolization / Open on the same Binutils; under the race detector; oracle: no data race, no deadlock (30 s), every answer carries the address that was asked; every case is non-trivial"})
 }
 
 // ---- facet config: tool options set from several goroutines at once ----
